@@ -43,7 +43,10 @@ def tokenize(src):
         if m.group(1):
             toks.append(("num", m.group(1)))
         elif m.group(2):
-            toks.append(("id", m.group(2)))
+            name = m.group(2)
+            if name in LEAN_KEYWORDS and not (toks and toks[-1] == ("op", ".")):
+                name += "_"                         # a Rust name that is a reserved word of Lean (not a field name)
+            toks.append(("id", name))
         elif m.group(4):
             toks.append(("str", m.group(4)))       # string literal: only legal inside a skipped macro argument list
         else:
